@@ -167,4 +167,20 @@ def factPositive (T : Tables) : Bool :=
   T.units.all (fun u => decide (0 < u.mag) && u.dims.length == 8 && u.dims.all (fun f => f.den != 0)) &&
   T.sys.all (fun u => decide (0 < u.mag) && u.dims.length == 8 && u.dims.all (fun f => f.den != 0))
 
+/-- ASCII part of `str.isspace` -/
+def isSpace (c : Char) : Bool :=
+  c == ' ' || (9 ≤ c.toNat && c.toNat ≤ 13) || (28 ≤ c.toNat && c.toNat ≤ 31)
+
+/-- a character that is neither an operator/parenthesis/separator of the unit solver nor blank -/
+def isPlainChar (c : Char) : Bool :=
+  !(c == '(' || c == ')' || c == '*' || c == '/' || c == ',' || isSpace c)
+
+/-- F7: prefix, unit and system-unit symbols contain no operator, parenthesis, separator or blank;
+    system-unit symbols start with the system-unit mark and do not end in an exponent character -/
+def factF7 (T : Tables) : Bool :=
+  T.prefixKeys.all (fun p => p.all isPlainChar) &&
+  T.units.all (fun u => u.sym.all isPlainChar) &&
+  T.sys.all (fun u => u.sym.all isPlainChar && u.sym.head? == some '#' &&
+    (match u.sym.getLast? with | some c => !isExpChar c | none => false))
+
 end SciVerif.C03
